@@ -159,3 +159,19 @@ Theorem output_series_are_grouped_label_sets :
             exists h, List.In h rows /\ r_labels r = regroup g (r_labels h) /\ r_ts r = r_ts h.
 Proof. intros fp varpop stddevpop Hinj f g rows Hc. eapply agg_series_identity; eassumption. Qed.
 Print Assumptions output_series_are_grouped_label_sets.
+
+(* every stage of a planned pipeline takes effect on the regular path too: planSpl wraps the plan into the planner of
+   the stage, or - for a label filter before the first parser - plan_ts applies it to the fingerprint selection;
+   line_format / label_format pipelines are refused, never planned without the stage *)
+Theorem planned_stage_takes_effect : forall st b cur cur',
+  (b = true -> is_label_filter st = true) -> plan_stage st b cur = Some cur' ->
+  (is_label_filter st = true /\ b = true /\ cur' = cur) \/ wraps st cur cur'.
+Proof. exact plan_stage_effect. Qed.
+Print Assumptions planned_stage_takes_effect.
+
+Theorem simple_label_filters_applied : forall ms ppl,
+  (forall st b, List.In (st, b) (combine ppl (simple_ops ppl)) -> b = true -> is_label_filter st = true) /\
+  fp_label_filters (plan_ts ms ppl (simple_ops ppl)) =
+  flat_map (fun sb => match fst sb, snd sb with PLabelFilter f, true => [f] | _, _ => [] end) (combine ppl (simple_ops ppl)).
+Proof. intros ms ppl. split; [apply simple_ops_label_filters|apply simple_filters_applied]. Qed.
+Print Assumptions simple_label_filters_applied.
